@@ -100,7 +100,7 @@ def crash_sig(r, stream):
 def run(ctx):
     acct, sites = tr_panics.account()
     ctx.coverage["translator"] = {"panic_capable_sites": {k: v for k, v in acct.items() if k != "by_file"}, "by_file": acct["by_file"]}
-    pr = core.prove("C08")
+    pr = core.prove("C08", extra_modules=["MC.Props.C03NoPanic"])
     core.proof_coverage(ctx, pr, "lake build MC.Props.C08 && lake env lean build/audit_C08.lean (#print axioms)", [
         "there is no model of all of the Rust: the kernel-checked part is (1) the API-level state machine MC.Session (errors leave the stored expression and the preferences alone; a successful "
         "set_mathml after ANY history reaches the fresh state: recover_eq_fresh, errors_leave_no_trace) and (2) the no-panic theorems of the engine models (prefs, intent parser, highlight "
